@@ -41,6 +41,12 @@ CHECKS = {
         text="K14a proves (within CrossHair's path exhaustion, no int bound) that the nested get_default/default_offset arithmetic aligns defaults with the last parameters for all num_pos_args, n_defaults, index. K14b exhausts every layout of <=2+2 (3+3) positional, <=2 keyword-only parameters, *args/**kwargs, default masks, annotation placements incl. string annotations, 5 return forms, overload sets: the text of format_signature re-parses to the same ast.arguments (names, kinds, separators, defaults, unquoted annotations, no '-> None') and Signature kinds/defaults equal inspect.signature's.",
         note="Trusted: CrossHair exhaustion verdict; CPython parser and inspect as oracle. K14b is bounded-exhaustive (class E): pydoctor runs concretely on each solver-chosen layout.",
     ),
+    "C15": dict(
+        level="model_checking", design="DESIGN.md §3 C15",
+        technique="CrossHair (z3): solver-enumerated expression shapes rendered by the real colorizer and re-parsed by CPython; symbolic strings through _str_escape against a reference un-escaper; symbolic ints through the _output wrap arithmetic; truncation/completeness over (value kind, size, linelen, maxlines)",
+        text="Bounded model checking / bounded-exhaustive exploration: every depth-2 combination of 47 expression forms x operand position and depth-3 operator chains (6 of 25 grandparent operators quick, all thorough) re-parse to the source AST (modulo documented spelling changes); every str/bytes of <=3 (4) characters over a quoting-relevant alphabet reads back via literal_eval; _str_escape is confirmed on symbolic strings of <=2 (3) arbitrary non-surrogate characters; _output conserves text and respects linelen for all small (linelen, column, length); cut output is marked and is a prefix of the full rendering for 5040 (12 600) limit settings.",
+        note="Trusted: CrossHair exhaustion verdict; CPython's parser/literal_eval as reader. Two recorded findings (one-element tuple, tuple slice bound) are excused by key and replayed each run.",
+    ),
 }
 
 NOT_APPLICABLE = {
